@@ -130,6 +130,8 @@ def random_case(rng, tier):
     opts = {'comm': True, 'pid': PID}
     if rng.random() < 0.4:
         opts['wrap'] = True  # the process is given plumpy's LoopCommunicator around the transport
+    if rng.random() < 0.4:
+        opts['eager'] = True  # the loop's thread runs what it is handed before the communicator's thread goes on (SimLoop)
     schedule = []
     n_max = 4 if tier == 'quick' else 6
     if flavour == 'quiescent':
